@@ -5,8 +5,12 @@ package olareg
 
 import (
 	"encoding/json"
+	"net/http"
+	"net/url"
 
+	"github.com/olareg/olareg/config"
 	"github.com/olareg/olareg/internal/verifenv/vh"
+	"github.com/olareg/olareg/internal/verifenv/vhttp"
 	"github.com/olareg/olareg/types"
 )
 
@@ -173,4 +177,85 @@ func VH_C15_ErrCodes() {
 	vh.Assert(e.Code == c.code, "C15.ctor-code")
 	vh.Assert(e.Detail == detail && e.Message != "" && e.Message != c.code, "C15.ctor-fields")
 	vh.Cover("C15.ctor-end")
+}
+
+// VH_C15_OddNames: every route shape x every method x every repository name of the name
+// universe (grammar names, nested names, names the directory store reserves, names outside
+// the grammar) on both stores, with one fixed well-formed reference per route: no panic, no
+// 5xx, a well-formed error document, and a reserved name is answered as a client error
+// that names the repository (NAME_INVALID) wherever an error document is sent.
+func VH_C15_OddNames() {
+	vhReset()
+	st := vhStore("dir")
+	w := vhNewWorld(vhConf(st), 1)
+	name := vhRepoNames[vh.Choice("repo", len(vhRepoNames))]
+	method := vhMethods[vh.Choice("method", len(vhMethods))]
+	routes := []string{"manifests", "manifests-digest", "blobs", "uploads-post", "uploads-id", "referrers", "tags", "mount"}
+	route := routes[vh.Choice("route", len(routes))]
+	vh.Tag("route", route)
+	vh.Tag("method", method)
+	vh.Tag("name", name)
+	q := url.Values{}
+	hdr := http.Header{}
+	var body []byte
+	path := "/v2/" + name
+	tblRoute := route
+	switch route {
+	case "manifests":
+		path += "/manifests/t1"
+		body = w.img1
+		hdr.Set("Content-Type", types.MediaTypeOCI1Manifest)
+		for _, a := range vhAllAccept {
+			hdr.Add("Accept", a)
+		}
+	case "manifests-digest":
+		tblRoute = "manifests"
+		path += "/manifests/" + w.dImg1.String()
+		body = w.img1
+		hdr.Set("Content-Type", types.MediaTypeOCI1Manifest)
+		for _, a := range vhAllAccept {
+			hdr.Add("Accept", a)
+		}
+	case "blobs":
+		path += "/blobs/" + w.dLayer.String()
+	case "uploads-post":
+		path += "/blobs/uploads/"
+		body = w.layer
+		q.Set("digest", w.dLayer.String())
+	case "uploads-id":
+		path += "/blobs/uploads/nosuch"
+		q.Set("state", vhStateToken(0))
+	case "referrers":
+		path += "/referrers/" + w.dImg1.String()
+	case "tags":
+		path += "/tags/list"
+	case "mount":
+		// the odd name as the SOURCE of a cross-repository mount into a
+		tblRoute = "uploads-post"
+		path = "/v2/a/blobs/uploads/"
+		q.Set("mount", w.dOther.String())
+		q.Set("from", name)
+	}
+	if method == "GET" || method == "HEAD" || method == "DELETE" || method == "OPTIONS" || method == "BREW" {
+		body = nil
+	}
+	rec := vhttp.Serve(w.s, vhttp.Request(method, path, q, hdr, body, int64(len(body))))
+	vh.Assert(!rec.Panicked, "C15.nopanic")
+	code := rec.Status()
+	vh.Assert(code >= 100 && code < 600, "C15.status-valid")
+	vh.Assert(code < 500, "C15.no-5xx")
+	vhCheckErrorDoc(tblRoute, code, rec.Body)
+	for _, n := range w.rec.names {
+		vh.Assert(rePath.MatchString(n), "C15.routed-name-in-grammar")
+	}
+	reserved := name == "index.json" || name == "a/blobs" || name == "x/oci-layout"
+	// (GET/HEAD/DELETE on .../blobs/uploads/ address a blob with the malformed digest
+	// "uploads": the digest is refused before the repository is opened)
+	if reserved && st == config.StoreDir && route != "mount" && (route != "uploads-post" || method == "POST") && code >= 400 && code != 405 && len(rec.Body) > 0 {
+		er := types.ErrorResp{}
+		_ = json.Unmarshal(rec.Body, &er)
+		vh.Assert(len(er.Errors) > 0 && er.Errors[0].Code == "NAME_INVALID", "C15.reserved-name-code")
+		vh.Cover("C15.reserved-name-refused")
+	}
+	vh.Cover("C15.oddnames-end")
 }
